@@ -564,6 +564,10 @@ thread_local! {
     /// what zc_ensure_write granted (-1 = the operation did not run)
     pub static LAST_K: std::cell::Cell<i128> = std::cell::Cell::new(-1);
 }
+thread_local! {
+    /// range writer cases: (original destination, destination afterwards, range start, range end)
+    pub static RW_FINAL: std::cell::RefCell<Option<(Vec<u8>, Vec<u8>, u64, u64)>> = std::cell::RefCell::new(None);
+}
 fn wlog(code: i128, arg: i128, data: &[u8], out: i128) {
     let dest = super::c13_io::CHUNKY_LEN.with(|c| c.get()) as i128;
     WLOG.with(|l| l.borrow_mut().push(WLog { code, arg, data: data.to_vec(), out, dest }));
@@ -615,7 +619,7 @@ pub fn writer(cx: &mut Ctx, kind: usize, cfg: &[u64], ops: &[Op]) {
     let cj = json!({"cell": "writer", "kind": kind, "cfg": cfg, "ops": ops_json(ops)});
     if !cx.gate(&cj) { return; }
     cx.sum.eval(&cell, &cj.to_string(), ops.len() >= 3);
-    if !matches!(kind, 0 | 1 | 2 | 3 | 8 | 9) { cx.sum.cell_status(&cell, "S-only"); }
+    if !matches!(kind, 0 | 1 | 2 | 3 | 4 | 6 | 8 | 9) { cx.sum.cell_status(&cell, "S-only"); }
     for (name, _) in ops { if matches!(name.as_str(), "vecw" | "zc_ensure" | "winfo" | "seek_start" | "seek_cur" | "seek_end" | "truncate") { cx.sum.dist(&format!("writer_op_{}", name)); } }
     let cap = g(cfg, 0, 8) as usize;
     let bulk = (g(cfg, 1, 8192) as usize).max(1);
@@ -623,6 +627,7 @@ pub fn writer(cx: &mut Ctx, kind: usize, cfg: &[u64], ops: &[Op]) {
     let path = format!("{}/wr_{}.bin", cx.tmp, kind);
     let e = |x: zipora::ZiporaError| x.to_string();
     WLOG.with(|l| l.borrow_mut().clear());
+    RW_FINAL.with(|f| *f.borrow_mut() = None);
     super::c13_io::CHUNKY_LEN.with(|c| c.set(0));
     let mut final_dest: Option<Vec<u8>> = None;
     let r = guarded(|| -> Result<(), String> {
@@ -698,6 +703,7 @@ pub fn writer(cx: &mut Ctx, kind: usize, cfg: &[u64], ops: &[Op]) {
                     let want = if i >= s0 && i < s0 + accepted.len() { accepted[i - s0] } else if i < orig.len() { orig[i] } else { 0 };
                     if b != want { return Err(format!("range writer left byte {} = {}, want {} (range start {}, accepted {} bytes)", i, b, want, s0, accepted.len())); }
                 }
+                RW_FINAL.with(|f| *f.borrow_mut() = Some((orig.clone(), out.clone(), start, start.saturating_add(len))));
                 return Ok(());
             }
             5 => return sbw_seek(cfg, ops),
@@ -713,6 +719,12 @@ pub fn writer(cx: &mut Ctx, kind: usize, cfg: &[u64], ops: &[Op]) {
         Err(p) => cx.sum.fail(&cell, None, cj, &format!("panicked: {}", p)),
         Ok(Err(why)) => cx.sum.fail(&cell, None, cj, &why),
         Ok(Ok(())) => {
+            // model tie: the range writer as a transducer to inner writes, replayed on a cursor
+            if let Some((orig, out, start, end)) = RW_FINAL.with(|f| f.borrow_mut().take()) {
+                let log = WLOG.with(|l| std::mem::take(&mut *l.borrow_mut()));
+                cx.coq_range_writer(&cell, start, end, &orig, &log, &out);
+                return;
+            }
             // model tie: the buffered and the zero-copy writer (explicit and default configuration) over the short-write destination
             if let Some(dest) = final_dest {
                 let log = WLOG.with(|l| std::mem::take(&mut *l.borrow_mut()));
@@ -797,7 +809,7 @@ fn range_writer_seek(cfg: &[u64], ops: &[Op]) -> Result<(), String> {
         if let Some(sf) = seek_of(name, *n) {
             let tgt: i128 = match sf { SeekFrom::Start(x) => start as i128 + x as i128, SeekFrom::Current(x) => cur as i128 + x as i128, SeekFrom::End(x) => end as i128 + x as i128 };
             let want = tgt.clamp(start as i128, end as i128) as u64;
-            match w.seek(sf) { Ok(q) => { if q != want - start { return Err(at(format!("seek returned {}, want {}", q, want - start))); } cur = want; } Err(x) => return Err(at(format!("seek failed: {}", x))) }
+            match w.seek(sf) { Ok(q) => { if q != want - start { return Err(at(format!("seek returned {}, want {}", q, want - start))); } cur = want; wlog(match sf { SeekFrom::Start(_) => 9, SeekFrom::Current(_) => 10, SeekFrom::End(_) => 11 }, match sf { SeekFrom::Start(x) => x as i128, SeekFrom::Current(x) | SeekFrom::End(x) => x as i128 }, &[], q as i128); } Err(x) => return Err(at(format!("seek failed: {}", x))) }
             continue;
         }
         match name.as_str() {
@@ -809,8 +821,9 @@ fn range_writer_seek(cfg: &[u64], ops: &[Op]) -> Result<(), String> {
                 model[cur as usize..cur as usize + k].copy_from_slice(&d[..k]);
                 cur += k as u64;
                 total += k as u64;
+                if name == "write" { wlog(0, 0, &d, k as i128); } else { wlog(-1, 0, &[], 0); }
             }
-            "flush" => w.flush().map_err(|x| at(x.to_string()))?,
+            "flush" => { w.flush().map_err(|x| at(x.to_string()))?; wlog(2, 0, &[], 1); }
             "winfo" => {
                 let got = (w.current_position(), w.remaining(), w.bytes_written(), w.is_at_end(), w.start_position(), w.end_position(), w.range_length());
                 if got != (cur, end - cur, total, cur >= end, start, end, len) { return Err(at(format!("accessors (current, remaining, bytes_written, at_end, start, end, length) = {:?}, {} bytes written", got, total))); }
@@ -821,6 +834,7 @@ fn range_writer_seek(cfg: &[u64], ops: &[Op]) -> Result<(), String> {
     }
     let out = w.into_inner().into_inner();
     if out != model { let i = out.iter().zip(model.iter()).position(|(a, b)| a != b).unwrap_or(out.len().min(model.len())); return Err(format!("destination ({} bytes) differs from the original overlaid with the writes ({} bytes) at byte {}", out.len(), model.len(), i)); }
+    RW_FINAL.with(|f| *f.borrow_mut() = Some((orig, out, start, end)));
     Ok(())
 }
 
